@@ -207,8 +207,14 @@ struct Machine
         L off = 0;
         for (auto & p : st.r.pcs) {
           const L a = std::max(off, ta), b = std::min(off + p.T, tb);
-          if (b - a > dl) n.pcs.push_back({p.atom, ref::mul(Lf, p.P), p.s0 + (a - off), b - a});
-          else if (b - a > -dl) n.fuzzy = true;
+          if (b - a > dl) {
+            n.pcs.push_back({p.atom, ref::mul(Lf, p.P), p.s0 + (a - off), b - a});
+          } else if (b - a > -dl) {
+            // the boundary coincides with a knot to within rounding: the library may or may not keep a sliver segment of
+            // length ~ulp(t_max) here. Keep it as a zero-length piece: evaluations within rounding of it accept either side.
+            n.pcs.push_back({p.atom, ref::mul(Lf, p.P), p.s0 + (std::min(a, b) - off), std::max<L>(b - a, 0)});
+            n.fuzzy = true;
+          }
           off += p.T;
         }
       }
@@ -328,7 +334,7 @@ struct Machine
         // scaling Del/T of velocity (squared for acceleration) carries the relative uncertainty ulp(t_max)/duration. This
         // conditioning term is subtracted before comparing with the tolerance (it only matters for the 1e-9-long pieces that
         // crops at knot +- 1e-9 create).
-        const double cond = 4 * std::numeric_limits<double>::epsilon() * std::max(1.0, (double)tm) / (double)e.pieceT;
+        const double cond = e.pieceT > 0 ? 4 * std::numeric_limits<double>::epsilon() * std::max(1.0, (double)tm) / (double)e.pieceT : INFINITY;
         const double rd = std::max(0.0, (double)(ed / sd) - 2 * cond), ra = std::max(0.0, (double)(ea / sa) - 4 * cond);
         // choose the candidate jointly (the evaluation must be consistent with ONE piece)
         const double tot = ev / TOLV + rd / TOLD + ra / TOLA;
